@@ -68,7 +68,10 @@ func randEntries(r *Rand, names []string, maxLen int, around []*big.Int) []rentr
 	var out []rentry
 	for i := 0; i < n; i++ {
 		var a *big.Int
-		if r.Chance(3, 4) {
+		if r.Chance(1, 12) {
+			// exact multiples of the machine word: a number whose low 64 bits are all zero is not zero
+			a = new(big.Int).Mul(pow2(64), bi(int64(1+r.Intn(3))))
+		} else if r.Chance(3, 4) {
 			a = bi(int64(1 + r.Intn(9)))
 		} else {
 			a = r.Amount(around, false)
@@ -169,6 +172,9 @@ func init() {
 				cfg.Directed = "repeatDest"
 				if i%12 == 7 {
 					cfg.Directed = "remainingFirst"
+				}
+				if i%24 == 13 {
+					cfg.Directed = "wordMultiple"
 				}
 			case 4:
 				if i%12 == 4 {
